@@ -16,7 +16,7 @@ P1_RULE = ("histories generated from one SplitMix64 state: commits of 1..6 ops o
            "reopen (and crash for C02/C03/C07); distinct = by SHA-1 of the op list; non-trivial = the history had data "
            "in at least two different pipeline stages at some observation point")
 
-HOOK_COMMITS = []
+HOOK_COMMITS = ["39fa7aa verif hook: expose both index page searches (cfg pdb_verif)"]
 NOT_APPLICABLE = {}
 
 PROPS = {
@@ -32,5 +32,24 @@ PROPS = {
         "harness": [{"cmd": "p1", "quick": 300, "thorough": 20000}],
         "rule": P1_RULE,
         "assumptions": [A_HASH, A_COMPRESS, P2_GAP],
+    },
+    "C19": {
+        "level_text": ("Lean theorems C19_sse2_result / never_before_p / never_empty / finds_if_base_finds / eq_base / base_result: for "
+                       "every page content, key prefix, start position and index size <= 49 bits the SSE2 search (lane-level model of "
+                       "the seven intrinsics) returns the first slot at or after p agreeing on the compared bits, never an empty slot, "
+                       "never 'absent' when the scalar search finds a match, and equals the scalar search from 18 index bits on. The "
+                       "shift / partial-key expressions and constants are regenerated from src/index.rs on every run, so the proofs are "
+                       "re-checked against the code's current expressions; loop structure and intrinsic semantics are tied by "
+                       "differential runs against the real functions (hook)."),
+        "level_note": ("Trusted: Lean kernel; hand-written lane semantics of the SSE2 intrinsics; the hook calling the two private "
+                       "functions; index sizes above 49 bits are outside the theorem (address_bits = 64 overflows the u64 shift)."),
+        "lean": ["Pdb.Props.C19"],
+        "harness": [{"cmd": "c19", "quick": 20000, "thorough": 300000, "max_search": 600000}],
+        "rule": ("synthetic 64-entry pages from one SplitMix64 state in six styles (empty, sparse exact matches, near misses in the "
+                 "dropped / lowest partial-key bits, zero partial keys on non-empty entries, dense random, duplicates), index bits "
+                 "16..49, start 0..64, key prefixes incl. zero partial key; distinct by SHA-1 of the op line; non-trivial = a search "
+                 "found something or the page holds near-miss / zero-key entries"),
+        "assumptions": ["SSE2 intrinsic semantics as modelled in Pdb/Model/IndexPage.lean (validated against the hardware by the runs)"],
+        "trusted": ["hook index.rs verif_find_entries (cfg pdb_verif)"],
     },
 }
